@@ -79,6 +79,8 @@ FIXES = [
     ('49-C08-bspline-explicit-breakpoints-floating-copy.patch', 'C08', 'C08.COVER'),
     ('50-C08-everyn-at-least-two-breakpoints.patch', 'C08', 'C08.NBKPT'),
     ('51-C11-iterfit-requiren-counts-last-point.patch', 'C11', 'C10.REQUIREN'),
+    ('52-C16-number-of-fibers-scalar-slot.patch', 'C16', 'C16.SCALAR-SLOT'),
+    ('53-C16-latest-mjd-location-keywords-only.patch', 'C16', 'C16.KW-FORWARD'),
 ]
 
 
